@@ -6,7 +6,9 @@ LEVEL = "proof"
 
 POS_SHAPES = ["'lit'", "b'by'", "0", "1024", "2.5", "0j", "[]", "['a', 'b']", "[x, 1]", "()", "('a',)", "{1, 2}", "{[1]}", "{}", "{'k': 'v'}", "{**d}", "name",
               "obj.attr", "mod.sub.attr", "call()", "obj.m(1)", "'a' + b", "'a %s' % b", "f'{x}'", "'{}'.format(x)", "'x'.replace('a', b)", "*args", "None", "True",
-              "...", "lambda: 0", "[i for i in y]", "x if c else y", "-1", "not x", "a[0]", "a.b(t)", "(yield)", "await_me", "x := 3" ]
+              "...", "lambda: 0", "[i for i in y]", "x if c else y", "-1", "not x", "a[0]", "a.b(t)", "(yield)", "await_me", "x := 3",
+              # constant arithmetic Python itself cannot evaluate (seeded change C06-m5 folded numeric literals in call arguments without a guard)
+              "1 // 0", "4096 % 0", "1 << -1", "1.5 | 1", "0 ** -1", "2 * 512", "0o700 | 0o077", "1 / 0", "-(1 // 0)", "'a' * -1", "~1.5", "1 << 10", "5 @ 3"]
 KEYWORDS = ["shell", "verify", "timeout", "usedforsecurity", "name", "key_size", "bits", "curve", "ssl_version", "method", "Loader", "weights_only", "members", "filter",
             "autoescape", "debug", "mpModel", "sql", "select", "where", "params", "tables", "order_by", "password", "token", "mode", "salt", "authKey", "privKey", "cwd", "package"]
 KW_SPECIAL = ["**opts", "**{'a': 1}", "**\"x\"", "**{}", "**f()"]
@@ -76,6 +78,8 @@ STATEMENTS = [
     "method, *rest = 'GET', '/index.html', 'HTTP/1.1'", "first, *middle, last = 'a', 'b', 'c', 'd'", "[scheme, *location] = 'http', 'host', 'path'", "*rest, password = 'x', 'y', 'pw'",
     "password, *rest = 'pw', 'x', 'y'", "a, b = 'x', 'y', 'z'", "(a, password), c = ('p', 'q'), 'r'", "user, password = 'admin', 'hunter2'", "user, password = creds = 'admin', 'hunter2'",
     "o.password, d['token'] = 'a', 'b'", "for password, *r in [('a', 'b', 'c')]: pass", "password, = 'x',", "a = b, password = 'x', 'y'",
+    "__import__('pickle')", "__import__(name)", "import importlib\nimportlib.import_module('telnetlib')", "import importlib\nimportlib.import_module(n, package='p')",
+    "import importlib\nimportlib.__import__('xml.sax')", "__import__()", "import importlib\nimportlib.import_module()",
     "tar.extractall(**{'path': dest, 'members': wanted})", "tar.extractall('.', **{'members': safe(tar)})", "tarfile.open(n).extractall(**{'filter': 'data'})",
     "subprocess.Popen(**{'args': cmd, 'shell': True})", "requests.get(url, **{'verify': False, 'timeout': None})", "yaml.load(s, **{'Loader': yaml.SafeLoader})",
     "while True:\n    x = 'a'\n    mark_safe(x)\n    x = b", "with a as x:\n    mark_safe(x)", "x: str\nmark_safe(x)", "x = ''.join(l)\nmark_safe(x)", "mark_safe()", "mark_safe(*a)", "mark_safe(s=x)",
@@ -183,10 +187,27 @@ def run(res, ctx):
                         diff = C.compare_scan(r, model[i], C.blacklist_ids())
                         if diff and ("real_crashes" in diff):
                             res.break_("correspondence:crashes", {"program": src, "diff": diff})
+        # ---- selections: the same programs under profiles that keep only call-blacklist ids, only import-blacklist ids, only plugins (seeded change C06-m6
+        #      indexed the Import table unconditionally: KeyError on every dynamic import when no import id is selected)
+        dyn = [(s, t) for s, t in valid if ("__import__" in s or "import_module" in s or "importlib" in s)][:150] + valid[:150]
+        for prof in ({"include": {"B301", "B307", "B602"}, "exclude": set()}, {"include": {"B403", "B404"}, "exclude": set()}, {"include": {"B101", "B608"}, "exclude": set()},
+                     {"include": set(), "exclude": {"B001"}}, {"include": {"B001"}, "exclude": {"B301"}}):
+            try:
+                realp = C.batch_real_scan(scratch, [s.encode() for s, _ in dyn], profile=prof)
+            except BaseException as e:
+                res.violation("an exception escaped the scan of valid Python files under a selection", {"exception": type(e).__name__, "profile": {k: sorted(v) for k, v in prof.items()}})
+                continue
+            for (src, tag), r in zip(dyn, realp):
+                res.case(("sel", tuple(sorted(prof["include"])), tuple(sorted(prof["exclude"])), src), True)
+                res.count("under-selection")
+                if r["errors"] or r["skipped"]:
+                    res.violation("a check raised on a syntactically valid file (internal error logged / file skipped)",
+                                  {"program": src, "crashed_checks": r["errors"], "skipped": r["skipped"], "profile": {k: sorted(v) for k, v in prof.items()}})
         # ---- depth: programs whose size drives the recursion of a check beyond CPython's recursion limit (the model has no such limit:
         #      Props.C06.b703_total shows its budget always suffices).  A RecursionError inside a check is the listed known finding
         #      C06-recursion-limit; any other internal error on these programs is a violation.
         deep = [("b608-concat-%d" % n, "q = 'SELECT * FROM t WHERE a = ' + " + " + ".join("v%d" % i for i in range(n)) + "\n", n) for n in (60, 600)] + \
+               [("b202-members-%d" % n, "import tarfile\nt = tarfile.open(n)\nt.extractall(dest, members=" + " + ".join("p%d" % i for i in range(n)) + ")\n", n) for n in (60, 600)] + \
                [("b703-alias-chain-%d" % n, "from django.utils.safestring import mark_safe\nx0 = ''\n" + "".join("x%d = x%d\n" % (i + 1, i) for i in range(n)) + "mark_safe(x%d)\n" % n, n)
                 for n in (60, 1200)]
         for label, src, n in deep:
